@@ -10,11 +10,18 @@ back with the real load_program (and through ProgramProcessor.get_program with -
     answers (replayed from the execution's trace; a different menu at any point is a
     divergence): flags, messages and resulting translations must be equal -- for q taken at
     the generated stage through erasure AND overwriting, for q taken after erasure through
-    overwriting.
+    overwriting;
+  * CROSS-INTERPRETER reload (what --replay really is): every saved .bin is also read back in a NEW
+    interpreter whose string-hash seed differs from the saving one (PYTHONHASHSEED=1 vs 0), translated to
+    the four languages, dumped again and reloaded; texts must equal the saving process' texts.  Anything
+    the pickle carries that is only meaningful inside the saving interpreter (cached hashes, ids) shows here.
 """
+import json
 import os
 import pickle
 import shutil
+import subprocess
+import sys
 import tempfile
 
 from mc import common, explore, pipeline, snapshot, irwalk
@@ -100,9 +107,53 @@ class Oracle:
                       'after_overwrite': self._save('P2')}
         self._saved = {}
         self._vs = []
+        self.cross = params.get('cross', True)
+        self._xp = []          # pending cross-interpreter reloads
+        self._xn = 0
+        self.batch_vs = []
+        self.stats['cross_interpreter_reloads'] = 0
+        self.stats['cross_interpreter_translations'] = 0
 
     def finish_unit(self):
+        self._flush_cross()
         shutil.rmtree(self.dir, ignore_errors=True)
+
+    def _flush_cross(self):
+        """reload the pending .bin files in a fresh interpreter with another string-hash seed"""
+        if not self._xp:
+            return
+        pending, self._xp = self._xp, []
+        index = os.path.join(self.dir, 'xp_index.json')
+        with open(index, 'w') as f:
+            json.dump([{'bin': b, 'config': c} for b, _, c, _, _ in pending], f)
+        env = dict(os.environ)
+        env['PYTHONHASHSEED'] = '1'
+        env['PYTHONDONTWRITEBYTECODE'] = '1'
+        out = subprocess.run([sys.executable, '-m', 'mc.props.c13', index], env=env, cwd=common.VERIF,
+                             stdout=subprocess.PIPE, stderr=subprocess.PIPE, timeout=3600)
+        if out.returncode != 0:
+            raise RuntimeError('cross-interpreter loader failed: %s' % out.stderr.decode()[-1500:])
+        got = json.loads(out.stdout.decode().strip().splitlines()[-1])
+        for (b, want, cfg, stage, sched), g in zip(pending, got):
+            self.stats['cross_interpreter_reloads'] += 1
+            for L in LANGS:
+                self.stats['cross_interpreter_translations'] += 1
+                if g.get('error'):
+                    self.batch_vs.append({'rule': 'reload-in-new-interpreter-raises', 'site': 'src/utils.py:load_program',
+                                          'shape': g['error'][:60], 'schedule': sched, 'stage': stage})
+                    break
+                if list(want[L]) != list(g['first'][L]):
+                    self.batch_vs.append({'rule': 'reloaded-in-new-interpreter-translates-differently',
+                                          'site': 'src/utils.py:load_program',
+                                          'shape': 'translation to %s differs at stage %s' % (L, stage), 'schedule': sched})
+                elif list(want[L]) != list(g['second'][L]):
+                    self.batch_vs.append({'rule': 'second-dump-in-new-interpreter-not-stable',
+                                          'site': 'src/utils.py:dump_program',
+                                          'shape': 'translation to %s differs at stage %s' % (L, stage), 'schedule': sched})
+            try:
+                os.remove(b)
+            except OSError:
+                pass
 
     # runs INSIDE the pipeline, at the moment hephaestus would save the program
     def _save(self, name):
@@ -149,15 +200,41 @@ class Oracle:
                     self._vs.append({'rule': 'replay-loads-different-program', 'site': 'src/modules/processor.py:get_program',
                                      'shape': 'get_program(--replay) differs at stage %s' % name})
                 # translations of p and q in every language
+                texts = {}
                 for L in LANGS:
                     tp_ = self._tr(L, P)
                     tq = self._tr(L, q)
+                    texts[L] = tp_
                     self.stats['translations_compared'] += 1
                     if tp_ != tq:
                         self._vs.append({'rule': 'reloaded-program-translates-differently',
                                          'site': 'src/utils.py:load_program',
                                          'shape': 'translation to %s differs at stage %s' % (L, name)})
+                # history load ; mutate in place ; load again (what --replay with several iterations does):
+                # the second load must still be the saved program
+                from src.transformations.type_erasure import TypeErasure
+                from src.transformations.type_overwriting import TypeOverwriting
+                lang = x.config.lang
+                qa = utils.load_program(path)
+                try:
+                    for cls_ in (TypeErasure, TypeOverwriting):
+                        t_ = cls_(qa, lang, None, args.options[cls_.__name__])
+                        t_.transform()
+                except Exception:  # noqa  (failures of the mutations are C18's business)
+                    pass
+                qb = utils.load_program(path)
+                self.stats['second_loads_after_mutation'] = self.stats.get('second_loads_after_mutation', 0) + 1
+                if self._tr(lang, qb) != texts[lang]:
+                    self._vs.append({'rule': 'second-load-after-mutation-differs', 'site': 'src/utils.py:load_program',
+                                     'shape': 'load; mutate; load again gives a different program at stage %s' % name})
                 self._saved[name] = q
+                if self.cross:
+                    self._xn += 1
+                    keep = os.path.join(self.dir, 'xp_%d.bin' % self._xn)
+                    shutil.copyfile(path, keep)
+                    self._xp.append((keep, texts, x.config.to_json(), name, explore.schedule_json(x)))
+            if len(self._xp) >= 240:
+                self._flush_cross()
         return hook
 
     def _tr(self, L, P):
@@ -274,11 +351,50 @@ def run(tier, seed, jobs):
 
 
 def replay(path):
-    import json
     d = json.load(open(path))['detail']
     o = Oracle({})
     x = explore.run_schedule(d['schedule'], hooks=o.hooks)
     vs = o.judge(x)
     o.finish_unit()
+    vs = vs + list(o.batch_vs)
     print('REPLAY', vs)
     return 1 if vs else 0
+
+
+def _xload_main(index):
+    """runs in the NEW interpreter (PYTHONHASHSEED differs from the saving process)"""
+    common.install_arena_cache()
+    sys.argv = [sys.argv[0]]
+    pipeline.setup_env()
+    utils = pipeline._env['utils']
+    out = []
+    for item in json.load(open(index)):
+        r = {'first': {}, 'second': {}}
+        try:
+            pipeline.configure(Config.from_json(item['config']))
+            pipeline.reset_hash_counter()
+            cs = ChoiceSource('first', None, horizon=200000)
+            pipeline.install_choice(cs, 0)
+            q = utils.load_program(item['bin'])
+            for L in LANGS:
+                try:
+                    r['first'][L] = ('ok', pipeline.translate(pipeline.new_translator(L, 'src.a'), q))
+                except Exception as e:  # noqa
+                    r['first'][L] = ('exc', type(e).__name__, str(e)[:100])
+            again = item['bin'] + '.again'
+            utils.dump_program(again, q)
+            q2 = utils.load_program(again)
+            os.remove(again)
+            for L in LANGS:
+                try:
+                    r['second'][L] = ('ok', pipeline.translate(pipeline.new_translator(L, 'src.a'), q2))
+                except Exception as e:  # noqa
+                    r['second'][L] = ('exc', type(e).__name__, str(e)[:100])
+        except Exception as e:  # noqa
+            r['error'] = '%s: %s' % (type(e).__name__, str(e)[:200])
+        out.append(r)
+    print(json.dumps(out))
+
+
+if __name__ == '__main__':
+    _xload_main(sys.argv[1])
